@@ -111,8 +111,10 @@ def gen_chrom(rng, name, ids, broken=None):
         link(c, "+", pc, "+")
     if broken == "haptail":
         # a haplotype segment prolonging the chain end: the last reference node becomes a cut vertex followed by a non-reference bubble-less tail
-        t1, _ = new("%s_t" % name, 7, 4)
-        t2, _ = new("%s_u" % name, 9, 5)
+        # offsets either small or continuing the increasing order (so that only the SN test can reject the chain)
+        hi = rng.random() < 0.6
+        t1, _ = new("%s_t" % name, so + 5 if hi else 7, 4)
+        t2, _ = new("%s_u" % name, so + 20 if hi else 9, 5)
         link(scaff[-1], "+", t1, "+")
         link(t1, "+", t2, "+")
     return segs, links, scaff
@@ -190,7 +192,13 @@ def make_case(rng):
         s2, l2, sc2 = gen_chrom(rng, small, ids, None)
         s2, l2 = s2[:1], []          # the partner is a single reference node
         h = next(ids)
-        allsegs += s1 + s2 + [[h, "hapJ", 3, 2, gen.rseq(rng, 3), []]]
+        if rng.random() < 0.6:       # offsets continuing the increasing order along the joined chain
+            top = max(x[2] for x in s1) + 10
+            s2[0][2] = top + 50
+            hso = top + 20
+        else:
+            hso = 3
+        allsegs += s1 + s2 + [[h, "hapJ", hso, 2, gen.rseq(rng, 3), []]]
         alllinks += l1 + l2 + [(sc1[-1], "+", h, "+", 0, []), (h, "+", s2[0][0], "+", 0, [])]
         chroms.append(big)
         broken[big] = "hapjoin"
@@ -236,9 +244,10 @@ def main(prop):
                 c = sp["name"]
                 ck.count("written" if sp["written"] else "skipped")
                 if sp["written"]:
-                    if not sp["linear"]:
+                    if not sp["linear"] or not sp["single_sn"]:
                         if prop == "C18":
-                            ck.violation("chromosome %s is not a simple chain but was ordered and written" % c, dict(replay, chromosome=c))
+                            ck.violation("chromosome %s is not a simple chain of one reference sequence (%s) but was ordered and written" % (
+                                c, "collapsed graph branches / has a cycle" if not sp["linear"] else "scaffold nodes on several stable sequences: joined through a haplotype"), dict(replay, chromosome=c))
                             ok = False
                     elif prop == "C06" and not sp["chain_ok"]:
                         ck.violation("BO/NO of chromosome %s do not encode its bubble chain (first BO expected %s)" % (c, sp["lo"]), dict(replay, chromosome=c, output=res["files"][c]))
